@@ -683,3 +683,136 @@ Definition sh_negonly : shape :=
 Lemma case_label_negative_only_nonvacuous :
   all_modes_neg sh_negonly = true /\ length (fst (coverage_cases sh_negonly)) = 6%nat.
 Proof. vm_compute. intuition. Qed.
+
+(* ---- the exact shape of the body-tail defect ---- *)
+Lemma comp_get_set k m cs : comp_get k (comp_set k m cs) = Some m.
+Proof.
+  induction cs as [|[k' m'] r IH]; cbn [comp_set comp_get].
+  - destruct k; reflexivity.
+  - destruct (ckind_eqb k k') eqn:E; cbn [comp_get]; rewrite ?E; [|exact IH].
+    destruct k; reflexivity.
+Qed.
+
+Lemma enumerate_nth {A} (l : list A) : forall n j x,
+  In (j, x) (enumerate_from n l) -> (n <= j)%nat /\ nth_error l (j - n) = Some x.
+Proof.
+  unfold enumerate_from. induction l as [|a l IH]; intros n j x Hin; [destruct Hin|].
+  cbn [length seq combine] in Hin. destruct Hin as [H|H].
+  - inversion H; subst. split; [lia|]. rewrite Nat.sub_diag. reflexivity.
+  - apply IH in H. destruct H as [Hle Hn]. split; [lia|].
+    replace (j - n)%nat with (S (j - S n)) by lia. exact Hn.
+Qed.
+
+Lemma body_cases_tail bs : forall T i c i' j,
+  In c (snd (body_cases T i bs)) -> c_kind c = KBodyTail i' j ->
+  (i <= i')%nat /\ exists b m0 tl mj,
+    nth_error bs (i' - i) = Some b /\ b_modes b = m0 :: tl /\ (1 <= j)%nat /\ nth_error tl (j - 1) = Some mj /\
+    c_mode c = m0 /\ comp_get CBody (c_comps c) = Some mj.
+Proof.
+  induction bs as [|b r IH]; intros T i c i' j Hin Hk; cbn [body_cases] in Hin; [destruct Hin|].
+  assert (Hrec : forall T', In c (snd (body_cases T' (S i) r)) ->
+     (i <= i')%nat /\ exists b0 m0 tl mj, nth_error (b :: r) (i' - i) = Some b0 /\ b_modes b0 = m0 :: tl /\ (1 <= j)%nat /\
+       nth_error tl (j - 1) = Some mj /\ c_mode c = m0 /\ comp_get CBody (c_comps c) = Some mj).
+  { intros T' H. destruct (IH T' (S i) c i' j H Hk) as (Hle & b0 & m0 & tl & mj & Hn & Hrest).
+    split; [lia|]. exists b0, m0, tl, mj. split; [|exact Hrest].
+    replace (i' - i)%nat with (S (i' - S i)) by lia. exact Hn. }
+  destruct (b_modes b) as [|m0 tl] eqn:Eb; [apply Hrec with (T' := T); exact Hin|].
+  set (T1 := if t_has_body T then T else set_body T (b_media b) m0) in *.
+  destruct (body_cases T1 (S i) r) as [T2 rest] eqn:Er. cbn [snd] in Hin.
+  destruct Hin as [Hc|Hc]; [subst c; discriminate Hk|].
+  apply in_app_or in Hc. destruct Hc as [Hc|Hc].
+  - apply in_map_iff in Hc. destruct Hc as ([j' mj] & Hc & Hj). subst c. cbn [fst snd] in *.
+    unfold mk_case in Hk. cbn [c_kind] in Hk. inversion Hk; subst i' j'.
+    apply enumerate_nth in Hj. destruct Hj as [Hle Hn].
+    split; [lia|]. exists b, m0, tl, mj. rewrite Nat.sub_diag.
+    repeat split; try assumption; try reflexivity.
+    unfold mk_case, with_body. cbn [c_comps fst]. apply comp_get_set.
+  - apply Hrec with (T' := T1). rewrite Er. exact Hc.
+Qed.
+
+Lemma param_cases_kind T ps c : In c (param_cases T ps) -> is_body_tail (c_kind c) = false.
+Proof.
+  intros Hin. unfold param_cases in Hin. apply in_flat_map in Hin. destruct Hin as (p & _ & Hin).
+  destruct (p_modes p); [destruct Hin|]. apply in_map_iff in Hin. destruct Hin as (jm & Hc & _). subst c. reflexivity.
+Qed.
+Lemma method_cases_kind T ms c : In c (method_cases T ms) -> is_body_tail (c_kind c) = false.
+Proof. intros Hin. apply in_map_iff in Hin. destruct Hin as (m & Hc & _). subst c. reflexivity. Qed.
+Lemma duplicate_cases_kind T ps c : In c (fst (duplicate_cases T ps)) -> is_body_tail (c_kind c) = false.
+Proof.
+  unfold duplicate_cases. destruct (filter (is_loc LQuery) ps) as [|q0 qs]; [intros []|].
+  destruct (has_container CQuery T); [|intros []]. cbn [fst]. intros Hin.
+  apply in_flat_map in Hin. destruct Hin as (p0 & _ & Hin).
+  destruct (has_name CQuery (p_name p0) (t_parts T)); [|destruct Hin]. destruct Hin as [Hc|[]]. subst c. reflexivity.
+Qed.
+Lemma missing_cases_kind T ps c : In c (fst (missing_cases T ps)) -> is_body_tail (c_kind c) = false.
+Proof.
+  induction ps as [|p r IH]; cbn [missing_cases]; [intros []|].
+  destruct (p_required p && negb (loc_eqb (p_loc p) LPath)); [|exact IH].
+  destruct (has_container (container (p_loc p)) T); [|intros []].
+  destruct (missing_cases T r) as [rest o]. cbn [fst] in *.
+  intros [Hc|Hc]; [subst c; reflexivity|apply IH; exact Hc].
+Qed.
+Lemma combo_cases_kind T sh l negs c : In c (combo_cases_for T sh l negs) -> is_body_tail (c_kind c) = false.
+Proof.
+  intros Hin. unfold combo_cases_for in Hin.
+  destruct (filter (is_loc l) (sh_params sh)) as [|p0 pr]; [destruct Hin|].
+  repeat (apply in_app_or in Hin; destruct Hin as [Hin|Hin]).
+  - destruct (dedup (map p_name (filter p_required (p0 :: pr)))); [destruct Hin|].
+    match type of Hin with In _ (if ?c then _ else _) => destruct c end; [|destruct Hin].
+    apply in_app_or in Hin. destruct Hin as [Hin|Hin].
+    + destruct (sh_pos sh); [|destruct Hin]. destruct Hin as [Hin|[]]. subst c. reflexivity.
+    + destruct (sh_neg sh); [|destruct Hin]. apply in_map_iff in Hin. destruct Hin as (i & Hc & _). subst c. reflexivity.
+  - apply in_flat_map in Hin. destruct Hin as ([io on] & _ & Hin). cbn [fst snd] in Hin.
+    match type of Hin with In _ (if ?c then _ else _) => destruct c end; [|destruct Hin].
+    destruct Hin as [Hin|Hin]; [subst c; reflexivity|].
+    destruct (sh_neg sh); [|destruct Hin]. apply in_map_iff in Hin. destruct Hin as (i & Hc & _). subst c. reflexivity.
+  - match type of Hin with In _ (if ?c then _ else _) => destruct c end; [|destruct Hin].
+    apply in_flat_map in Hin. destruct Hin as (size & _ & Hin).
+    apply in_flat_map in Hin. destruct Hin as (comb & _ & Hin).
+    match type of Hin with In _ (if ?c then _ else _) => destruct c end; [|destruct Hin].
+    destruct Hin as [Hin|[]]. subst c. reflexivity.
+Qed.
+
+Lemma body_tail_inherits_first : forall sh c i j,
+  In c (fst (coverage_cases sh)) -> c_kind c = KBodyTail i j ->
+  exists b m0 tl mj,
+    nth_error (sh_bodies sh) i = Some b /\ b_modes b = m0 :: tl /\ (1 <= j)%nat /\ nth_error tl (j - 1) = Some mj /\
+    c_mode c = m0 /\ comp_get CBody (c_comps c) = Some mj.
+Proof.
+  intros sh c i j Hin Hk.
+  assert (Ht : is_body_tail (c_kind c) = true) by (rewrite Hk; reflexivity).
+  apply cases_pieces in Hin. cbn zeta in Hin.
+  destruct Hin as [Hin|[Hin|[Hin|[Hin|[Hin|Hin]]]]].
+  - unfold body_stage in Hin. destruct (sh_bodies sh) as [|b r] eqn:Eb.
+    + cbn [snd] in Hin. destruct (sh_pos sh); [|destruct Hin]. destruct Hin as [Hc|[]]. subst c. discriminate Hk.
+    + destruct (body_cases_tail _ _ _ _ _ _ Hin Hk) as (_ & b0 & m0 & tl & mj & Hn & Hrest).
+      rewrite Nat.sub_0_r in Hn. exists b0, m0, tl, mj. split; assumption.
+  - apply param_cases_kind in Hin. congruence.
+  - apply method_cases_kind in Hin. congruence.
+  - apply duplicate_cases_kind in Hin. congruence.
+  - apply missing_cases_kind in Hin. congruence.
+  - unfold combo_stage in Hin. repeat (apply in_app_or in Hin; destruct Hin as [Hin|Hin]); apply combo_cases_kind in Hin; congruence.
+Qed.
+
+(* ---- anyOf / oneOf over numeric branches ---- *)
+Open Scope Z_scope.
+Lemma anyof_negative_partial : forall bs seen i v d k,
+  forallb (forallb numeric_key) bs = true ->
+  In (i, (Some v, d, k)) (anyof_negative_numbers bs seen) ->
+  exists b, nth_error bs i = Some b /\ In k b /\ violates k v = true.
+Proof.
+  induction bs as [|b r IH]; intros seen i v d k Hn Hin; [destruct Hin|].
+  cbn [forallb] in Hn. apply andb_true_iff in Hn. destruct Hn as [Hb Hr].
+  cbn [anyof_negative_numbers] in Hin. apply in_app_or in Hin. destruct Hin as [Hin|Hin].
+  - apply in_map_iff in Hin. destruct Hin as (it & Hit & Hin). inversion Hit; subst.
+    destruct (negative_numbers_invalid_partial _ _ _ _ _ Hb Hin) as [Hk Hv].
+    exists b. repeat split; assumption.
+  - apply in_map_iff in Hin. destruct Hin as ([i' it] & Hit & Hin). cbn [fst snd] in Hit. inversion Hit; subst.
+    destruct (IH _ _ _ _ _ Hr Hin) as (b' & Hn' & Hrest). exists b'. split; [exact Hn'|exact Hrest].
+Qed.
+
+(* anyOf [minimum 5] [maximum 10]: 4 is yielded as "smaller than minimum" and conforms to the second branch *)
+Lemma anyof_negative_refuted :
+  In (O, (Some (PInt 4), NSmaller, KMinimum 5)) (anyof_negative_numbers [[KMinimum 5]; [KMaximum 10]] [])
+  /\ existsb (fun b => conforms b (PInt 4)) [[KMinimum 5]; [KMaximum 10]] = true.
+Proof. vm_compute. intuition. Qed.
